@@ -165,6 +165,14 @@ def generate(model: Model):
         yield "mutant", "output-key-by-id:SimpleShuffle", "R11a", ss.module.rel, _splice(ss.module.source, t.elts[1], "part_out")
         break
 
+    # 12. co-alignment walk / identity weakened
+    mod, fn = model.func("_expr", "are_co_aligned")
+    for c in (x for x in ast.walk(fn) if isinstance(x, ast.Call) and ast.unparse(x.func) == "_tokenize_partial" and len(x.args) > 1 and isinstance(x.args[1], ast.List)):
+        yield "mutant", "co-aligned:ignore-filters", "R02c", mod.rel, _splice(mod.source, c.args[1], ast.unparse(c.args[1])[:-1] + ', "filters"]')
+    for c in (x for x in ast.walk(fn) if isinstance(x, ast.Call) and ast.unparse(x.func) == "stack.extend" and isinstance(x.args[0], ast.Name)):
+        yield "mutant", "co-aligned:walk-first-dependency", "R02c", mod.rel, _splice(mod.source, c.args[0], f"{c.args[0].id}[:1]")
+        yield "twin", "co-aligned:walk-skips-scalars", None, mod.rel, _splice(mod.source, c.args[0], f"[d for d in {c.args[0].id} if d.ndim > 0]")
+
     # ---- twins -------------------------------------------------------------------------------------
     def rename_local(modname, owner, fname, old, new):
         if owner:
@@ -187,6 +195,8 @@ def generate(model: Model):
         ("io.parquet", None, "to_parquet", "read_path_with_slash", "rp"),
         ("_expr", "Partitions", "_simplify_down", "operands", "new_operands"),
         ("io.io", "FromPandas", "_filtered_task", "part", "piece"),
+        ("_expr", None, "are_co_aligned", "dependencies", "deps"),
+        ("_expr", None, "optimize_blockwise_fusion", "dependents", "consumers_of"),
     ):
         try:
             rel, src = rename_local(*args)
